@@ -72,6 +72,9 @@ func c20RunChild(bin, prop, tags string, digestFile string) (exit int, out strin
 	cmd := exec.Command(bin, "-prop", prop, "-tier", "quick", "-digest", digestFile, "-report-as", "C20", "-build-tags", tags, "-no-evidence",
 		"-verif", VerifDir, "-out", core.OutDir)
 	cmd.Env = append(os.Environ(), "VERIF_SHARD=")
+	if c20Smoke {
+		cmd.Env = append(cmd.Env, "VERIF_SMOKE=1")
+	}
 	b, err := cmd.CombinedOutput()
 	if ee, ok := err.(*exec.ExitError); ok {
 		return ee.ExitCode(), string(b)
@@ -138,6 +141,10 @@ func c20CompareProp(prop string) (mismatch []string, childViolation bool, msg st
 
 var c20Observations, c20DistinctObs int64
 
+// c20Smoke: the quick tier compares the two builds on the small enumeration
+// sizes (the comparison is of transcripts; depth comes from the per-property checks).
+var c20Smoke = true
+
 func init() {
 	core.RegisterReplayer("C20/transcript", func(raw json.RawMessage) *core.Fail {
 		var c c20Transcript
@@ -191,6 +198,7 @@ func runC20(ctx *core.Ctx) {
 		ctx.Note("in-package shim unavailable: same-build comparison skipped; the two-build comparison decides")
 	}
 	// (2) two builds
+	c20Smoke = ctx.Quick()
 	props := []string{"C07", "C08", "C09", "C10", "C16", "C02", "C04", "C05", "C06", "C13", "C17", "C01"}
 	var compared []string
 	for _, p := range props {
